@@ -150,6 +150,68 @@ def h_distinct(which: int, t0: str, t1: str, tnew: str, r0: int, rnew: int, hr0:
     return None
 
 
+MB_TYPES = ["collection", "chapter", "article", "source", "interwiki", "license", "wikiconf", "custom"]
+
+
+def mutable_defaults():
+    """{class name: {attribute: default}} for every list/dict-valued class-level default of the metabook classes (from the current source)"""
+    metabook, _ = _mods()
+    out = {}
+    for name in dir(metabook):
+        cls = getattr(metabook, name)
+        if isinstance(cls, type) and issubclass(cls, metabook.MetabookObject):
+            d = {}
+            for k in dir(cls):
+                if not k.startswith("__"):
+                    v = getattr(cls, k)
+                    if isinstance(v, (list, dict)):
+                        d[k] = v
+            out[name] = d
+    return out
+
+
+def h_sparse(tidx: int, p0: bool, p1: bool, p2: bool, p3: bool, t: str):
+    """An object loaded from a JSON value that carries only some of its keys (older / hand-written metabooks), then
+    changed in place: no other instance, no fresh instance and no class-level default may see the change."""
+    metabook, myjson = _mods()
+    assume(len(t) <= 2)
+    typ = MB_TYPES[choose(tidx, len(MB_TYPES))]
+    def mkval():  # a JSON decoder builds fresh containers for every text it reads
+        v_ = {"type": typ}
+        for (k, v), present in zip([("title", t), ("items", []), ("licenses", []), ("wikis", [])], (p0, p1, p2, p3)):
+            if present:
+                v_[k] = v
+        return v_
+
+    val = mkval()
+    before = {cn: {k: (list(v) if isinstance(v, list) else dict(v)) for k, v in d.items()} for cn, d in mutable_defaults().items()}
+    a = loads_model(val)
+    b = loads_model(mkval())
+    if not isinstance(a, metabook.MetabookObject):
+        return {"sig": "sparse|not-an-object", "value": val}
+    touched = []
+    for k, v in list(a.__dict__.items()):
+        if isinstance(v, list):
+            v.append("SENTINEL")
+            touched.append(k)
+        elif isinstance(v, dict):
+            v["SENTINEL"] = 1
+            touched.append(k)
+    for k in touched:
+        if "SENTINEL" in getattr(b, k):
+            return {"sig": "shared-default|between-two-loaded-objects", "value": val, "attribute": k}
+        fresh = a.__class__()
+        if "SENTINEL" in getattr(fresh, k, ()):
+            return {"sig": "shared-default|fresh-instance-sees-it", "value": val, "attribute": k}
+    now = mutable_defaults()
+    for cn, d in before.items():
+        for k, v in d.items():
+            if now[cn][k] != v:
+                return {"sig": "shared-default|class-default-changed", "value": val, "class": cn, "attribute": k}
+    # clean up whatever leaked (so that one path cannot poison the next)
+    return None
+
+
 # ---------------------------------------------------------------------------- collection id (pre-image of the hash)
 
 ID_ALPHABET = "'\"\\a"  # both quote characters, the backslash (repr's escape) and a letter
@@ -331,6 +393,7 @@ def build(tier: str) -> CheckSpec:
          "hr0": bool, "hr1": bool, "hr2": bool, "d0": bool, "d1": bool, "d2": bool, "extra_val": str, "ctitle": str}
     cubes = [Cube("round trip, 0..3 items", h_roundtrip, p, {}, timeout=tmo, per_path_timeout=30, group="roundtrip"),
              Cube("distinct collections", h_distinct, {"which": int, "t0": str, "t1": str, "tnew": str, "r0": int, "rnew": int, "hr0": bool}, {}, timeout=tmo, group="distinct"),
+             Cube("sparse JSON values, then in-place change", h_sparse, {"tidx": int, "p0": bool, "p1": bool, "p2": bool, "p3": bool, "t": str}, {}, timeout=tmo, group="defaults"),
              ] + [Cube(f"collection id: requests differing in {n}", h_collid_one, {"b": str, "e": str, "l": str, "hl": bool, "m": int, "x": str, "hx": bool, "mx": int},
                        {"which": w}, timeout=tmo, per_path_timeout=30, group="collection-id") for w, n in enumerate(["base_url", "script_extension", "login", "metabook"])
              ] + [Cube(f"collection id: field boundary {n}", h_collid_split, {"u1": str, "v1": str, "u2": str, "v2": str}, {"pair": w}, timeout=tmo, per_path_timeout=30,
@@ -346,7 +409,8 @@ def build(tier: str) -> CheckSpec:
                 "titles": "symbolic strings <= 3 chars", "revisions": "symbolic ints, present or absent", "displaytitle": "present or absent",
                 "collection id": "pairs of requests that differ in at most one of base_url / script_extension (symbolic strings <= 2 chars over %r, the other fields fixed), login_credentials (absent or <= 1 char), "
                                  "metabook (13 JSON texts in 9 content classes: key order, whitespace, re-serialization, undeclared attributes, revision, title, order, chapter nesting, collection title); "
-                                 "pairs where two adjacent fields both vary (<= 1 char each; field boundary)" % ID_ALPHABET},
+                                 "pairs where two adjacent fields both vary (<= 1 char each; field boundary)" % ID_ALPHABET,
+                "sparse": "JSON values of every metabook type carrying any subset of title / items / licenses / wikis, loaded twice, every list/dict attribute changed in place"},
         stubs=["nserve.sha256 -> object that keeps the hashed text (ids are compared on the pre-image); sys.stdout silenced inside make_collection_id",
                "JSON text layer (simplejson C encoder/decoder) modelled as the identity on JSON values: dumps_model / loads_model call MbEncoder.default and object_hook exactly where the real codec does"],
         assumptions=["simplejson renders and parses JSON values faithfully", "sha256 is collision-free on the texts compared (the replay compares real ids)", "equality of metabooks = same classes, order, nesting and attribute values"],
@@ -379,6 +443,37 @@ def replay(cand: dict) -> dict:
         if ok:
             return {"reproduced": False, "what": "real myjson round trip is a fixed point for this collection"}
         return {"reproduced": True, "signature": "C13|roundtrip", "what": f"myjson.loads(myjson.dumps(c)) differs: {s1[:200]!r} -> {s2[:200]!r}"}
+    if cand["fn"] == "h_sparse":
+        import json as pyjson
+
+        d = cand.get("concrete", {}).get("detail") or {}
+        if "value" not in d:
+            return {"reproduced": False, "what": "the concrete re-run of the harness shows no sharing"}
+        txt = pyjson.dumps(d["value"])
+        x = myjson.loads(txt)
+        y = myjson.loads(txt)
+        k = d.get("attribute")
+        if k is None or not hasattr(x, k):
+            return {"reproduced": False, "what": "loaded object has no such attribute"}
+        tgt = getattr(x, k)
+        if isinstance(tgt, list):
+            tgt.append("SENTINEL")
+        else:
+            tgt["SENTINEL"] = 1
+        leaks = []
+        if "SENTINEL" in getattr(y, k):
+            leaks.append("another object loaded from the same text")
+        if "SENTINEL" in getattr(x.__class__(), k):
+            leaks.append("a fresh " + x.__class__.__name__ + "()")
+        if "SENTINEL" in getattr(x.__class__, k, ()):
+            leaks.append("the class-level default")
+            try:
+                getattr(x.__class__, k).remove("SENTINEL")
+            except Exception:
+                pass
+        if not leaks:
+            return {"reproduced": False, "what": "no sharing on the real codec"}
+        return {"reproduced": True, "signature": "C13|shared-default", "what": f"myjson.loads({txt!r}).{k} is shared with " + ", ".join(leaks)}
     if cand["fn"] in ("h_collid_one", "h_collid_split"):
         d = cand.get("concrete", {}).get("detail") or {}
         if "r1" not in d:
